@@ -161,6 +161,8 @@ def check_C01(tier, seed):
     sem_leg(o, "random-calls", ["--family", "calls"], n // 3, seed + 1)
     sem_leg(o, "random-control", ["--family", "control"], n // 3, seed + 2)
     sem_leg(o, "random-seq", ["--family", "seq"], n // 3, seed + 3)
+    # translation validation: the real compiler's bytecode on the specification's opcode-level machine
+    sem_and_frames(o, "translation", ["--family", "mixed"], n // 3, seed + 4, steps=3000)
     o.extra["rule"] = "records = generated programs (type-directed, seeded) plus the repository's own corpus; each run of the real eval is validated against the deterministic NlSem machine"
     return o.finish()
 
@@ -483,6 +485,82 @@ def frames_files_leg(o, name, files, wd, timeout=1500):
                    "wall_s": round(time.time() - t0, 1)})
 
 
+def vm_files_leg(o, name, files, wd, timeout=1800):
+    """NlVM: the real compiler's bytecode run on the opcode-level machine of the specification; its result against
+    the recorded observation (translation validation, together with the NlSem leg on the same records) and its
+    states against the recorded dispatch events (lock step)."""
+    t0 = time.time()
+    optab = optab_file(wd)
+    ff = []
+    for f in files:
+        recs = [r for r in core.read_ndjson(f) if r.get("bc") and r.get("steps") is not None]
+        g = f + ".vm"
+        core.write_ndjson(g, recs)
+        if recs:
+            ff.append((f, g))
+    results = run_tv_shards([g for _, g in ff], "NlVM.tla", "NlVM.cfg", wd, timeout=timeout, extra_env={"OPTAB": optab})
+    counts = {}
+    nrec = nsteps = ndrift = 0
+    agreeing = []
+    for (f, g), r in zip(ff, results):
+        o.add_tlc(r)
+        recs = {x["id"]: x for x in core.read_ndjson(g)}
+        srcs = {x["id"]: x["text"] for x in core.read_ndjson(f + ".src")} if os.path.exists(f + ".src") else {}
+        nrec += len(recs)
+        if len(r.verdicts) != len(recs):
+            raise ToolError(f"{name}: {len(r.verdicts)} verdicts for {len(recs)} records in {g}")
+        for v in r.verdicts:
+            key = v["class"] + ":" + v["rule"]
+            counts[key] = counts.get(key, 0) + 1
+            nsteps += v.get("steps", 0)
+            rec = recs[v["id"]]
+            text = srcs.get(v["id"], "")
+            o.traces += 1
+            if v["class"] == "mismatch":
+                sig = sig_of(name, v, rec, text)
+                o.violation(sig, {"text": text, "obs": rec.get("obs"), "vm_result": v.get("vmres"),
+                                  "vm_out": core.text_of(v.get("vmout", [])), "record_file": g, "id": v["id"],
+                                  "spec_module": "NlVM.tla", "cfg": "NlVM.cfg"})
+            elif v.get("drift", 0) > 0 and v["class"] != "skip":
+                ndrift += 1
+                ev = rec["steps"][v["drift"] - 1] if v["drift"] <= len(rec["steps"]) else None
+                sig = sig_of(name, v, rec, text)
+                sig["rule"] = "lockstep"
+                sig["at_step"] = v["drift"]
+                o.violation(sig, {"text": text, "first_differing_event": ev, "step": v["drift"], "record_file": g,
+                                  "id": v["id"], "spec_module": "NlVM.tla", "cfg": "NlVM.cfg"})
+            elif v["class"] == "agree":
+                agreeing.append(rec)
+    tried = rejected = 0
+    cand = [r for r in agreeing if len(r["steps"]) > 10]
+    if cand:
+        rng = random.Random(11)
+        bad = []
+        for k, r_ in enumerate(rng.sample(cand, min(8, len(cand)))):
+            c = copy.deepcopy(r_)
+            if k % 2 == 0:
+                j = len(c["steps"]) // 2
+                c["steps"][j][2] += 1          # one stack height
+                c["_expect"] = "drift"
+            else:
+                c = corrupt_obs(c, rng)
+                c["_expect"] = "mismatch"
+            bad.append(c)
+        bf = os.path.join(wd, f"corrupt_vm_{name}.ndjson")
+        core.write_ndjson(bf, bad)
+        rr = core.tlc_or_die("NlVM.tla", "NlVM.cfg", env={"RECS": bf, "OPTAB": optab}, workdir_=wd)
+        byid = {b["id"]: b for b in bad}
+        tried = len(bad)
+        for v in rr.verdicts:
+            exp = byid[v["id"]]["_expect"]
+            if (exp == "drift" and v.get("drift", 0) > 0) or (exp == "mismatch" and v["class"] == "mismatch"):
+                rejected += 1
+        if tried != rejected:
+            raise ToolError(f"{name}: sensitivity self-test failed ({rejected}/{tried})")
+    o.legs.append({"leg": name, "records": nrec, "vm_steps": nsteps, "verdicts": counts, "lockstep_drifts": ndrift,
+                   "sensitivity_tried": tried, "sensitivity_rejected": rejected, "wall_s": round(time.time() - t0, 1)})
+
+
 def gen_files(wd, cmd, args, shards, prefix):
     def gen(i):
         f = os.path.join(wd, f"{prefix}{i}.ndjson")
@@ -505,6 +583,7 @@ def sem_and_frames(o, name, gen_args, n, seed, steps=4000, gen_cmd="gen-sem"):
     files = core.parallel(gen, list(range(shards)))
     sem_files_leg(o, name + "-values", files, wd)
     frames_files_leg(o, name + "-discipline", files, wd)
+    vm_files_leg(o, name + "-machine", files, wd)
 
 
 def residue_leg(o, name, files, wd):
@@ -791,6 +870,7 @@ def check_C03(tier, seed):
     gc_model_leg(o, tier)
     gc_replay_leg(o, C03_CLASSES, tier, seed)
     ledger_leg(o, "ledger-runs", C03_CLASSES, "runs", size(tier, 1600, 40000), seed)
+    ledger_leg(o, "ledger-sessions", C03_CLASSES, "sessions", size(tier, 320, 8000), seed + 3)
     o.extra["exhaustive"] = True
     o.extra["rule"] = ("model: all operation sequences up to the bound over 3 objects (alloc / link / unroot / collect / untrace / drop / "
                        "caller-free), design and algorithm in lock step; replay: simulated behaviours of the model executed on the real "
@@ -809,6 +889,10 @@ def check_C04(tier, seed):
     ledger_leg(o, "ledger-runs", C04_CLASSES, "runs", size(tier, 800, 20000), seed)
     ledger_leg(o, "ledger-every-abort-point", C04_CLASSES, "aborts", size(tier, 48, 2000), seed + 5,
                max_k=size(tier, 100, 400))
+    # in a retained session the results handed to the caller are not released by the recorder (a result may
+    # be the value of a global that later lines still use), so "still live at the end" says nothing there;
+    # what a session ledger can show for C04 is a box released twice
+    ledger_leg(o, "ledger-sessions", {"double-free", "twice"}, "sessions", size(tier, 320, 8000), seed + 3)
     o.extra["exhaustive"] = True
     o.extra["rule"] = ("as C03, plus for each of a set of allocating programs one run per abort point k = 0..L (complete per program up to the bound)")
     return o.finish()
@@ -955,6 +1039,61 @@ def parse_files_leg(o, name, files, wd):
                    "sensitivity_rejected": rejected, "wall_s": round(time.time() - t0, 1)})
 
 
+def parseany_leg(o, name, n, seed):
+    """the real parser against NlParser on arbitrary texts (TV_ParseAny)"""
+    t0 = time.time()
+    wd = core.workdir(f"{o.prop}_{name}")
+    shards = core.NCPU
+
+    def gen(i):
+        f = os.path.join(wd, f"pa{i}.ndjson")
+        core.run_nlh(["gen-parseany", "--seed", seed, "--n", n, "--shards", shards, "--shard", i,
+                      "--first-id", i * 1000000 + 1, "--out", f], timeout=3000)
+        return f
+    files = core.parallel(gen, list(range(shards)))
+    results = run_tv_shards(files, "TV_ParseAny.tla", "TV_ParseAny.cfg", wd, timeout=3000)
+    counts = {}
+    nrec = 0
+    good = []
+    for f, r in zip(files, results):
+        o.add_tlc(r)
+        recs = {x["id"]: x for x in core.read_ndjson(f)}
+        nrec += len(recs)
+        if len(r.verdicts) != len(recs):
+            raise ToolError(f"{name}: {len(r.verdicts)} verdicts for {len(recs)} records")
+        for v in r.verdicts:
+            key = v["class"] + ":" + v["rule"]
+            counts[key] = counts.get(key, 0) + 1
+            o.traces += 1
+            rec = recs[v["id"]]
+            if v["class"] == "mismatch":
+                o.violation({"leg": name, "rule": "parser:" + v["rule"], "input_kind": rec["kind"], "text": rec["text"][:300],
+                             "class": "Panic" if rec.get("crashed") else None, "msg": rec.get("got_kind")},
+                            {"text": rec["text"], "parser_accepts": rec["got_ok"], "parser_error_kind": rec["got_kind"],
+                             "parser_tree": rec["got"]})
+            elif rec["got_ok"] and len(good) < 30:
+                good.append(rec)
+    bad = []
+    for k, r_ in enumerate(good[:10]):
+        c = copy.deepcopy(r_)
+        if k % 2 == 0:
+            c["got_ok"] = False; c["got_kind"] = "Syntax"; c["got"] = []
+        else:
+            c["got"] = c["got"] + [{"k": "Break"}]
+        bad.append(c)
+    tried = rej = 0
+    if bad:
+        bf = os.path.join(wd, "corrupt.ndjson")
+        core.write_ndjson(bf, bad)
+        rr = core.tlc_or_die("TV_ParseAny.tla", "TV_ParseAny.cfg", env={"RECS": bf}, workdir_=wd)
+        tried = len(bad)
+        rej = sum(1 for v in rr.verdicts if v["class"] == "mismatch")
+        if tried != rej:
+            raise ToolError(f"{name}: sensitivity self-test failed ({rej}/{tried})")
+    o.legs.append({"leg": name, "records": nrec, "verdicts": counts, "sensitivity_tried": tried, "sensitivity_rejected": rej,
+                   "wall_s": round(time.time() - t0, 1)})
+
+
 def check_C07(tier, seed):
     o = Outcome("C07", tier, seed, "model_checking")
     o.assumptions = [
@@ -963,7 +1102,7 @@ def check_C07(tier, seed):
         "the parser's tree is read through the hook `verif::ast_json` (a projection of the tree returned by the public parse)",
     ]
     wd = core.workdir("C07_vectors")
-    fams = ["pairs"] + (["triples"] if tier == "thorough" else [])
+    fams = ["pairs", "opassign"] + (["triples"] if tier == "thorough" else [])
     vecs = []
     for fam in fams:
         r = tlc_vectors("MC_Grammar.tla", "MC_Grammar.cfg", wd, env={"FAMILY": fam})
@@ -998,6 +1137,17 @@ def check_C07(tier, seed):
         return f
     gfiles = core.parallel(gen, list(range(shards)))
     parse_files_leg(o, "random-statement-trees", gfiles, wd2)
+    parseany_leg(o, "any-text-vs-specified-parser", size(tier, 4000, 120000), seed)
+    # M1: the specified parser inverts the specified printer on the enumerated families
+    t1 = time.time()
+    wd3 = core.workdir("C07_roundtrip")
+    fams3 = ["pairs"] + (["triples"] if tier == "thorough" else [])
+    for fam in fams3:
+        r = core.run_tlc("MC_ParseRoundTrip.tla", "MC_ParseRoundTrip.cfg", env={"FAMILY": fam}, workdir_=wd3, workers=4, timeout=3000)
+        if r.error or r.violated:
+            raise ToolError(f"Parse(Unparse(t)) = t fails in the specification itself ({fam}): {r.error or r.violated}")
+        o.add_tlc(r)
+    o.legs.append({"leg": "spec-roundtrip", "families": fams3, "wall_s": round(time.time() - t1, 1)})
     o.extra["exhaustive"] = True
     o.extra["vectors_from_spec"] = len(vecs)
     o.extra["rule"] = ("trees enumerated by TLC from NlGrammar: every ordered pair of the 13 binary operators in both nestings, prefix / call / "
